@@ -397,6 +397,21 @@ func ruleKeepCache(c *Ctx) {
 				bad = append(bad, "the value stored is "+prettyTerm(v)+" on "+where)
 			}
 		}
+		// every configured name that is missing gets a dispatcher: misses == stores
+		misses, st := 0, 0
+		for _, e := range pr.Events {
+			if e.Kind == "call" && e.Callee != nil && e.Callee.String() == "(*sync.Map).Load" {
+				if kk, v := pr.Facts.Decide(ext(e.Result, 1)); kk && !v {
+					misses++
+				}
+			}
+			if isMapStore(e) {
+				st++
+			}
+		}
+		if pr.Exit == "return" && st < misses {
+			bad = append(bad, fmt.Sprintf("%d configured cache(s) missing from the registry but only %d created: an accepted configuration leaves a server without its cache (503 on every request), on %s", misses, st, where))
+		}
 	})
 	if stores == 0 {
 		c.undecided("keep-surviving-cache", name, pos, "idiom not recognised")
